@@ -334,10 +334,24 @@ def run(ctx):
     mism, bad = [], []
     nontrivial = set()
     opkinds = {}
+    known_hits = {}
     for i, (src, ops, init) in enumerate(cases):
         if i not in impl:
             continue
         out = impl[i]
+        if out.startswith(("fail rc=", "crash signal=")):
+            # the sequence died in its child: fetch the sanitizer report by running it once more in-process
+            report = out
+            try:
+                C.run_lines(ctx.harness, [impl_lines[i]], env=dict(os.environ, VH_C06_NOFORK="1"))
+            except C.Crash as c:
+                report = out + "\n" + (c.output or "")
+            kf = next((k for k in ctx.known if all(tok in report for tok in k["fingerprint"].split("|"))), None)
+            if kf:
+                known_hits[kf["fingerprint"]] = (kf, known_hits.get(kf["fingerprint"], (None, 0))[1] + 1)
+            else:
+                bad.append((i, "the implementation crashed during the sequence or the save after it: " + report[:1500]))
+            continue
         if model is not None and model[i] != out:
             mism.append((i, model[i], out))
         segs = out.split(" # ")
@@ -360,6 +374,8 @@ def run(ctx):
             bad.append((i, why))
         if len(ops) >= 2 and any(o[0] in ("del", "dbt", "prune", "rep", "ord") for o in ops):
             nontrivial.add(impl_lines[i])
+    for fp, (k, n) in known_hits.items():
+        res.known.append(f"{k['what']} [{n} sequences]")
     for j, (i, why) in enumerate(sorted(bad, key=lambda b: len(cases[b[0]][1]))[:3]):
         src, ops, init = cases[i]
         res.violation(f"oracle-{j}", dict(what=why, src=src, ops=[list(o) for o in ops], line=impl_lines[i],
